@@ -127,15 +127,15 @@ LinGroupCheck(s, keys, vg, pr, sp) ==
       m == pr.n
       vEv(j) == LinEntryEvents(ComId(clist[j]), vg.pt,
                                LinId(pr, j, {"replace:wf0"}),
-                               LinId(pr, j, {"replace:v0", "v_trunc", "v_extend"}), TRUE)
-      pEv(j) == LinEntryEvents(pr.srcs[j], pr.pt, <<pr.op, pr.g, 10 * j>>, <<pr.op, pr.g, 10 * j>>, TRUE)
+                               LinId(pr, j, {"replace:v0", "v_trunc", "v_extend"}), keys.wf)
+      pEv(j) == LinEntryEvents(pr.srcs[j], pr.pt, <<pr.op, pr.g, 10 * j>>, <<pr.op, pr.g, 10 * j>>, keys.wf)
       prefixEq(j) == sp = pr.pre /\ \A i \in 1..j : vEv(i) = pEv(i)
       entryRes(j) ==
         CASE j > m -> "panic"
           [] HasMut(pr, j, "drop_wf") -> "err"
           [] HasMut(pr, j, "forge_columns") -> IF ChecksMerkleResult(s) THEN "reject" ELSE "accept"
           [] HasMut(pr, j, "forge_stretch") -> IF GuardsOpeningVectorLength(s) THEN "err" ELSE "accept"
-          [] HasMut(pr, j, "cols_trunc") -> "panic"
+          [] HasMut(pr, j, "cols_trunc") \/ HasMut(pr, j, "forge_nocolumns") -> "panic"   \* columns[j] indexed for every derived position
           [] ~prefixEq(j) -> "err"
           [] HasMut(pr, j, "replace:path0") \/ HasMut(pr, j, "cols_repeat") \/ HasMut(pr, j, "cols_shift") -> "err"
           [] HasMut(pr, j, "path_sibling") /\ ChecksMerkleResult(s) -> "reject"
